@@ -861,6 +861,7 @@ func runC02(c *Ctx) {
 	}
 	c02Correspondence(c, cases, outs)
 	c02SymSuite(c)
+	c02TerminationSweep(c, wd)
 }
 
 type c02Witness struct {
